@@ -241,6 +241,16 @@ def replay(path):
     print("---- verifier output ----")
     print(d.get("verifier_output", ""))
     fi = d.get("failing_input") or {}
+    rc = fi.get("real_cli") or {}
+    if rc.get("program"):
+        from . import cli
+        print("---- re-running the counterexample on the real code (binary rebuilt from the tree under check) ----")
+        print(rc["program"])
+        os.environ["VERIF_CLI_REPLAY"] = "1"
+        run = cli.run_program(str(REPO), rc["program"])
+        print(f"exit {run['exit']}\n{run['stdout']}\n{run['stderr'][-1500:]}")
+        print("expected by the property:", rc.get("expected_by_the_property"), "| recorded at check time:", rc.get("actual"))
+        return 0
     if fi.get("cmd"):
         print("---- re-running failing input on the real code ----")
         print(fi["cmd"])
